@@ -224,11 +224,21 @@ Section Resolved.
       linked_model st o sid url = Some sm ->
       find_comp (m_comps sm) ref = Some ic ->
       TC (Some (key_of o url)) sm ic ->
+      (forall k, In k kids -> TC o cm k) ->        (* the placeholder's own children (tested since 0a59695) *)
       TC o cm (Comp n (Some (sid, url, ref)) used kids)
   | TC_local : forall o cm n used kids,
       UsedOK o cm (Comp n None used kids) ->
       (forall k, In k kids -> TC o cm k) ->
       TC o cm (Comp n None used kids).
+
+  (* the import of a placeholder alone *)
+  Definition TCI (o : owner) (c : comp) : Prop :=
+    match c with
+    | Comp _ (Some (sid, url, ref)) _ _ =>
+      exists sm ic, linked_model st o sid url = Some sm /\ find_comp (m_comps sm) ref = Some ic /\
+                    TC (Some (key_of o url)) sm ic
+    | Comp _ None _ _ => True
+    end.
 End Resolved.
 
 (* the origin model's own local entities, which hasUnresolvedImports() also walks: a local units referenced by a
